@@ -100,10 +100,10 @@ class LinearOperator(EditableModule):
             if mat.shape[-2] != mat.shape[-1]:
                 is_hermitian = False
             else:
-                is_hermitian = torch.allclose(mat, mat.transpose(-2, -1).conj())
+                is_hermitian = _is_hermitian_matrix(mat)
         elif is_hermitian:
             # check the hermitian
-            if not torch.allclose(mat, mat.transpose(-2, -1).conj()):
+            if not _is_hermitian_matrix(mat):
                 raise RuntimeError("The linear operator is indicated to be hermitian, but the matrix is not")
 
         return MatrixLinearOperator(mat, is_hermitian)
@@ -802,6 +802,12 @@ def checklinop(linop: LinearOperator) -> None:
     for (rmv_xshape, rmv_yshape) in zip(rmv_xshapes, rmv_yshapes):
         runtest("rmv", rmv_xshape, rmv_yshape)
         runtest("rmm", (*rmv_xshape, r), (*rmv_yshape, r))
+
+def _is_hermitian_matrix(mat: torch.Tensor) -> bool:
+    # the absolute tolerance is relative to the magnitude of the matrix, so that a matrix given in
+    # small units (entries ~1e-8 or below) is not taken as hermitian whatever its entries
+    scale = float(mat.detach().abs().max()) if mat.numel() > 0 else 0.0
+    return torch.allclose(mat, mat.transpose(-2, -1).conj(), atol=1e-8 * scale)
 
 ########### repr helper functions ###########
 def _indent(s, nspace):
